@@ -56,8 +56,8 @@ TRUSTED = [
 PARTIAL = [
     "process death is visible to the pool only through proc.poll(): a worker that dies after its health check is handed out "
     "(the property says 'alive per its last poll')",
-    "BaseException (KeyboardInterrupt) raised from a callback, a unary call issued inside an open stream, and use of a proxy "
-    "after its `with` block are not generated",
+    "KeyboardInterrupt is only raised from callbacks (not asynchronously between two bytecodes); use of a proxy or session "
+    "after its `with pool.connect` block is not generated",
     "preemption inside a single bytecode / C call is not explored",
 ]
 RULE = (
@@ -180,11 +180,12 @@ def make_cb(spec: Any) -> Any:
     n = [0]
     at = set(spec.get("at", []))
     frm = spec.get("from")
+    exc = KeyboardInterrupt if spec.get("exc") == "ki" else Boom
 
     def cb(_msg: Any) -> None:
         n[0] += 1
         if n[0] in at or (frm is not None and n[0] >= frm):
-            raise Boom(f"on_log #{n[0]}")
+            raise exc(f"on_log #{n[0]}")
 
     return cb
 
@@ -197,7 +198,8 @@ def pooled_flags(pooled: Any) -> list[Any]:
         code = 1
     else:
         code = 3 if getattr(s, "_drained", True) else 2  # a tree without `_drained` treats closed as clean
-    return [bool(pooled._stream_opened), bool(getattr(pooled, "_stream_leaked", False)), code]
+    return [bool(pooled._stream_opened), bool(getattr(pooled, "_stream_leaked", False)), code,
+            bool(getattr(pooled, "_interrupted", False))]
 
 
 def idle_total(pool: Any) -> int:
@@ -270,8 +272,6 @@ def do_borrow(ds: DetSched, env: dict[str, Any], cfg: dict[str, Any], ti: int, j
                 err: BaseException | None = None
                 try:
                     if name in UNARY:
-                        if before[2] == 1:
-                            continue  # never a unary call inside an open stream
                         cls = "unary"
                         if name == "echo":
                             v = svc.echo(k=num)
@@ -330,12 +330,14 @@ def do_borrow(ds: DetSched, env: dict[str, Any], cfg: dict[str, Any], ti: int, j
                         continue
                     else:
                         raise ValueError(name)
+                except KeyboardInterrupt as e:
+                    err = e  # a BaseException cuts the borrow short (after whatever the operation had done so far)
                 except Exception as e:  # noqa: BLE001 - whatever the client raised is the outcome of the operation
                     err = e
                 after = pooled_flags(pooled)
                 if cls == "openFail":
                     # the request went out (the pool's flags moved as for any sent stream request) or it never did
-                    sent = [True, before[1] or before[2] in (1, 2), before[2]]
+                    sent = [True, before[1] or before[2] in (1, 2), before[2], False]
                     if after != sent and after == before:
                         cls = "sendFail"
                 if cls is None:  # a session operation: classified by what it did to the session
@@ -349,10 +351,16 @@ def do_borrow(ds: DetSched, env: dict[str, Any], cfg: dict[str, Any], ti: int, j
                         cls = "endDirty"
                 if cls is not None:
                     ds.emit("use", cls, *after)
+                if isinstance(err, KeyboardInterrupt):
+                    # connect() marks the transport on the way out (it has not yet: the flag is reported as it will be)
+                    ds.emit("use", "interrupt", after[0], after[1], after[2], True)
+                    raise err
                 if err is not None and spec.get("propagate") and not isinstance(err, StopIteration):
                     raise err
             if spec.get("exit") == "raise":
                 raise UserAbort
+    except KeyboardInterrupt:
+        pass
     except Exception as e:  # noqa: BLE001
         if not entered:
             if isinstance(e, RuntimeError) and "closed" in str(e):
@@ -450,7 +458,7 @@ def analyse(cfg: dict[str, Any], run: Any) -> dict[str, Any]:
                 vouched[tid] = set()
             events.append([k, tid, *ev[2:]])
         elif k == "use":
-            events.append(["use", tid, ev[2], bool(ev[3]), bool(ev[4]), int(ev[5])])
+            events.append(["use", tid, ev[2], bool(ev[3]), bool(ev[4]), int(ev[5]), bool(ev[6])])
         elif k == "ret":
             returning[tid] = ev[2]
             events.append(["ret", tid, ev[2], bool(ev[3]), bool(ev[4])])
@@ -507,7 +515,8 @@ def judge(ctx: Any, cfg: dict[str, Any], run: Any, an: dict[str, Any], env: dict
                           ("refused", "refused" in evk), ("spawn-fail", "spawnFail" in evk),
                           ("abandoned", any(e[0] == "ret" and e[3] for e in an["events"])),
                           ("end-dirty", "endDirty" in uses), ("end-ok", "endOk" in uses), ("open-fail", "openFail" in uses),
-                          ("leaked", any(e[0] == "use" and e[4] for e in an["events"]))):
+                          ("leaked", any(e[0] == "use" and e[4] for e in an["events"])),
+                          ("interrupt", "interrupt" in uses)):
         if present:
             tags.append(f"conc:has-{name}")
     ctx.case(case, nontrivial=an["served"] >= 2, tags=tuple(tags))
@@ -616,6 +625,9 @@ CORPUS: list[dict[str, Any]] = [
     _c(1, [[B(0, MASK), B()], [B()]]),
     _c(1, [[B(0, PROD_CLOSE, cb={"from": 2}), B(), B()], [B()]]),
     _c(1, [[B(0, PROD_CANCEL, cb={"from": 3}, propagate=True), B(), B()]]),
+    # KeyboardInterrupt out of a callback, a unary call inside an open stream
+    _c(1, [[B(0, NOISY, cb={"at": [2], "exc": "ki"}), B(), B()], [B()]]),
+    _c(1, [[B(0, PROD_CLOSE, cb={"at": [3], "exc": "ki"}), B()], [B(0, [["open", "prod", 2, 0], ["tick"], ["echo"], ["close"]]), B()]]),
     # callbacks raising inside unary calls, leaving the block by an exception
     _c(1, [[B(0, NOISY, cb={"at": [2]}, propagate=True), B()], [B(0, NOISY, cb={"at": [1]}), B()]]),
     _c(1, [[B(0, [["echo"]], exit="raise"), B()], [B(0, BADSTREAM), B()]]),
@@ -648,6 +660,8 @@ def callback_family() -> list[dict[str, Any]]:
                 for prop in (False, True):
                     cb = {"at": [k]} if mode == "at" else {"from": k}
                     out.append(_c(1, [[B(0, ops, cb=cb, propagate=prop), B(), B()]], src=f"cb:{name}"))
+            if name in ("noisy", "prod_close", "prodh_close", "exch_close"):
+                out.append(_c(1, [[B(0, ops, cb={"at": [k], "exc": "ki"}), B(), B()]], src=f"ki:{name}"))
     return out
 
 
@@ -655,6 +669,7 @@ def gen_ops(rng: Any) -> list[list[Any]]:
     ops: list[list[Any]] = []
     for _ in range(rng.choice([1, 1, 2, 2, 3])):
         r = rng.random()
+        unary_inside = rng.random() < 0.12
         if r < 0.35:
             ops.append(rng.choice([["echo"], ["echo"], ["noisy", rng.choice([1, 2, 3])], ["bad"]]))
             continue
@@ -665,6 +680,8 @@ def gen_ops(rng: Any) -> list[list[Any]]:
             continue
         for _ in range(rng.choice([0, 1, 1, 2, 3])):
             ops.append(["send", rng.randrange(9)] if kind == "exch" else ["tick"])
+        if unary_inside:
+            ops.append(["echo"])
         end = rng.choice(["close", "close", "cancel", "iter", "abandon", "abandon", "sendbad", "kill", "mask"])
         if end == "iter" and kind == "exch":
             end = "close"
@@ -697,6 +714,8 @@ def gen_cfg(rng: Any) -> dict[str, Any]:
                     k = rng.choice([1, 1, 2, 2, 3, 4, 5, 6])
                     spec["cb"] = {"at": [k]} if rng.random() < 0.5 else {"from": k}
                     spec["propagate"] = rng.random() < 0.5
+                    if rng.random() < 0.15:
+                        spec["cb"]["exc"] = "ki"
                 if rng.random() < 0.1:
                     spec["exit"] = "raise"
                 jobs.append(["borrow", rng.randrange(len(keys)), spec])
